@@ -1,7 +1,7 @@
 """C07 - concurrent publish() with the background loop.
 
 Model: Conc/Sched.v (interleaving model M5), theorems in Props/C07.v (mids distinct, hand-off, no lost
-wake-up, lock order, CONNECT-first refuted / partial).  This harness is the implementation side: the real
+wake-up, lock order, CONNECT first / no failing loop step / no unmarked drop around reconnect()).  This harness is the implementation side: the real
 client runs under the controlled scheduler of harness/sched.py; schedules are enumerated exhaustively up to a
 preemption bound (iterative context bounding) and sampled by seeded random / PCT strategies; every run is
 judged by the oracle below, and for the part the model covers (QoS 0 hand-off in the steady state) the run's
@@ -53,7 +53,8 @@ SIG_C = "F-C07c-loop-stop-join-none"
 SIG_D = "F-C07d-qos0-dropped-unmarked-by-reconnect"
 SIG_E = "F-C07e-lost-qos0-reported-success"
 SIG_F = "F-C07f-inflight-negative-publish-during-reconnect"
-EXPECTED_OPEN = (SIG_A, SIG_B, SIG_C, SIG_D, SIG_E, SIG_F)
+# a-e were fixed in /repo (c6905fd, 0ed8c5c, 189c9f8, 060dbc4): their stored schedules are regression replays that must pass
+EXPECTED_OPEN = (SIG_F,)
 LOCK_IDS = {"_mid_generate_mutex": 0, "_out_message_mutex": 1, "_in_callback_mutex": 2, "_callback_mutex": 3,
             "_msgtime_mutex": 4, "_in_message_mutex": 5, "_reconnect_delay_mutex": 6, "info_condition": 7}
 ROOT = os.path.dirname(os.path.dirname(os.path.abspath(__file__)))
